@@ -88,7 +88,7 @@ os = _os
 sys = _sys
 
 
-def grammar_sentences(r, n):
+def grammar_sentences(r, n, prefer=None):
     """random sentences of rule 'deriv' (a residue with any of the modification forms of the grammar), drawn from the
     grammar file itself, alone and inside a small glycan"""
     sys.path.insert(0, os.path.join(C.VERIF, "tools", "translate"))
@@ -98,6 +98,8 @@ def grammar_sentences(r, n):
     lits = {nm: ls for nm, kind, ls in table if kind == "lits"}
 
     def tok(name):
+        if prefer and name in prefer:
+            return r.choice(prefer[name])
         if name == "NUM":
             return r.choice(["1", "2", "3", "4", "5", "6", "7", "8", "9", "12", "15", "16", "18", "20"])
         ls = lits.get(name, [])
@@ -123,9 +125,9 @@ def grammar_sentences(r, n):
         if k == "opt":
             return expand(e[1], depth) if r.random() < 0.5 else ""
         if k == "star":
-            return "".join(expand(e[1], depth) for _ in range(r.choice([0, 0, 1, 1, 2])))
+            return "".join(expand(e[1], depth) for _ in range(r.choice([0, 0, 1] if prefer else [0, 0, 1, 1, 2])))
         if k == "plus":
-            return "".join(expand(e[1], depth) for _ in range(r.choice([1, 1, 2])))
+            return "".join(expand(e[1], depth) for _ in range(1 if prefer else r.choice([1, 1, 2])))
         return ""
 
     out = []
@@ -137,3 +139,13 @@ def grammar_sentences(r, n):
     return out
 
 
+
+
+def plausible(drv):
+    """token preferences that make random sentences of rule deriv mostly convertible: positions 2-6, groups that have
+    chemistry, common sugars"""
+    fgs = [x.split("\x1e")[0] for x in drv.call("fgtokens").split("\x1f") if x and x.split("\x1e")[0]]
+    lex_ok = [t for t in fgs if drv.call("lex", t).split("\x1e")[0] == "FG"]
+    return {"NUM": ["2", "3", "4", "6", "2", "3", "4", "6", "5", "1"], "FG": lex_ok or ["Ac", "S", "Me"],
+            "SAC": ["Glc", "Man", "Gal", "Fuc", "Xyl", "Rha", "Ara", "Rib", "Neu", "Kdo", "Fru", "Tal", "All", "Qui", "Ido", "Gul", "Alt", "Lyx"],
+            "COUNT": ["Hep", "Oct"]}
